@@ -35,6 +35,7 @@ class Part:
         self.thread = None
         self.exc = None
         self.wait_label = ""
+        self.deadline = None  # virtual-clock instant at which a timed wait gives up (only join(timeout) sets it)
 
 
 class Scheduler:
@@ -84,7 +85,7 @@ class Scheduler:
                 part = self.part
                 if part.state == "new":
                     raise RuntimeError("cannot join thread before it is started")
-                return outer.block(lambda: part.state == "done", f"join({part.name})", timed=timeout is not None)
+                return outer.block(lambda: part.state == "done", f"join({part.name})", timed=timeout is not None, timeout=timeout)
 
             def is_alive(self):
                 return self.part.state not in ("new", "done")
@@ -166,6 +167,8 @@ class Scheduler:
                 out.append(p)
             elif p.state == "waiting" and p.pred is not None and p.pred():
                 out.append(p)
+            elif p.state == "waiting" and p.deadline is not None and self.clock >= p.deadline:
+                out.append(p)  # its timeout has expired on the virtual clock
         return out
 
     def point(self, label, obj=None):
@@ -184,7 +187,11 @@ class Scheduler:
         self._dispatch(me, f"{me.name}:{label}")
         me.state = "running"
 
-    def block(self, pred, label, timed=False):
+    def advance(self, seconds: float):
+        """Virtual time passes (a handler that takes a while)."""
+        self.clock += seconds
+
+    def block(self, pred, label, timed=False, timeout=None):
         if self.aborting:
             raise SchedulerAbort()
         me = self._me()
@@ -197,9 +204,14 @@ class Scheduler:
         me.timed = timed
         me.timeout_fired = False
         me.wait_label = label
+        # a join with a timeout really gives up once that much (virtual) time has passed, whoever is still busy
+        me.deadline = (self.clock + timeout) if (timed and timeout is not None) else None
         self._dispatch(me, f"{me.name}:blocked:{label}")
         me.state = "running"
         me.pred = None
+        if me.deadline is not None and self.clock >= me.deadline and not pred():
+            me.timeout_fired = True
+        me.deadline = None
         if me.timeout_fired:
             self.trace.append((me.id, "timeout:" + label, None))
             return "timeout"
